@@ -14,20 +14,24 @@ first; `.clear()` of an existing `feature` attribute) are re-read from the sourc
 namespace Mouette.Props.C15
 open Mouette.Features
 
-/-- the resets are present in the CURRENT source (translated fragment; a lost `.clear()` or `self.clear()`
-makes this false, a refactored branch makes the translator refuse) -/
+/-- the resets are present in the CURRENT source, and the normals `run` computes itself are a private temporary
+(`face_normals(mesh, persistent=False)`): translated fragment; a lost `.clear()` / `self.clear()` or a persistent
+`face_normals` makes this false, a refactored branch makes the translator refuse -/
 theorem generated_run_resets :
-    Mouette.Generated.C15.runFlags = { selfClear := true, edgeClear := true } := by decide
+    Mouette.Generated.C15.runFlags = { selfClear := true, edgeClear := true, normalsPersistent := false } := by decide
 
 /-- **the n-th run equals the first run on a fresh mesh**: after ANY history of earlier runs on the same mesh
-object (with the same detector object or others, any options, any normals), the state produced by the last
-run — the mesh attribute and all the detector's containers — is the one a fresh mesh and a fresh detector
-give; and that is the stateless model of `feature_set_exact` & co. -/
-theorem nth_run_eq_fresh (nv : Nat) (st : RunState) (hist : List (Bool × RunInput)) (inp : RunInput) :
+object (same detector object or others, any options, any geometry the mesh had at those moments — the vertices may
+have been moved between the runs), the state produced by the last run is the one a fresh mesh with the CURRENT
+geometry and a fresh detector give.  Side condition on what the CALLER did with the face attribute `normals`:
+nobody wrote one (`inj = false` throughout: every run computes from the geometry of its moment), or the caller
+wrote one just before the last run (then that one is used). -/
+theorem nth_run_eq_fresh (nv : Nat) (st : RunState) (hst : st.normals = none) (hist : List (Bool × RunInput))
+    (inp : RunInput) (hn : (∀ r ∈ hist, r.2.inj = false) ∨ inp.inj = true) :
     runHistory Mouette.Generated.C15.runFlags Mouette.Generated.C15.thresholds nv st (hist ++ [(true, inp)]) =
       runOn Mouette.Generated.C15.runFlags Mouette.Generated.C15.thresholds nv RunState.fresh inp := by
   have h := generated_run_resets
-  exact runHistory_last (by rw [h]) (by rw [h]) _ nv inp hist st
+  exact runHistory_last (by rw [h]) (by rw [h]) (by rw [h]) _ nv inp hist st hst hn
 
 /-- the run on a fresh mesh is the stateless model: `feature_edges`, `feature_vertices`, `feature_degrees`
 are the functions the other C15 theorems speak about -/
@@ -39,28 +43,41 @@ theorem fresh_run_is_stateless (nv : Nat) (inp : RunInput) :
   have h := runOn_fresh Mouette.Generated.C15.runFlags Mouette.Generated.C15.thresholds nv inp
   exact ⟨h.2.1, h.2.2.1, h.2.2.2.1⟩
 
-/-- consequence: whatever ran before, the feature edges of the last run are exactly border ∪ sharp ∪ hard -/
-theorem feature_set_exact_after_history (nv : Nat) (st : RunState) (hist : List (Bool × RunInput))
-    (inp : RunInput) (e : Nat) :
+/-- consequence: whatever ran before (and wherever the vertices were then), the feature edges of the last run are
+exactly border ∪ sharp ∪ hard for the normals of the last run -/
+theorem feature_set_exact_after_history (nv : Nat) (st : RunState) (hst : st.normals = none)
+    (hist : List (Bool × RunInput)) (inp : RunInput) (hn : (∀ r ∈ hist, r.2.inj = false) ∨ inp.inj = true) (e : Nat) :
     e ∈ (runHistory Mouette.Generated.C15.runFlags Mouette.Generated.C15.thresholds nv st
           (hist ++ [(true, inp)])).det.fe ↔
       ∃ x, inp.es[e]? = some x ∧
         (x.border = true ∨
          (inp.onlyBorder = false ∧ interior x = true ∧ cosLt x.d x.q (1/2) = true) ∨
          (inp.onlyBorder = false ∧ x.hard = true ∧ interior x = true ∧ cosLt x.d x.q (4/5) = true ∧ x.border = false)) := by
-  rw [nth_run_eq_fresh, (fresh_run_is_stateless nv inp).1]
+  rw [nth_run_eq_fresh nv st hst hist inp hn, (fresh_run_is_stateless nv inp).1]
   exact feature_set_exact inp.onlyBorder inp.es e
 
-/-! sensitivity / non-vacuity: without the `.clear()` of the attribute an interior edge flagged by an earlier
-run survives a later `only_border` run; with it, it does not -/
-def demoEdges : List EdgeInfo :=
+/-! sensitivity / non-vacuity -/
+def demoEdges (d : Rat) : List EdgeInfo :=
   [{ a := 0, b := 1, t1 := some 0, t2 := none, border := true, hard := false, d := 0, q := 1 },
-   { a := 1, b := 2, t1 := some 0, t2 := some 1, border := false, hard := false, d := 0, q := 1 }]
-example : (runHistory { selfClear := true, edgeClear := false } Mouette.Generated.C15.thresholds 3 RunState.fresh
-    [(false, { onlyBorder := false, es := demoEdges }), (true, { onlyBorder := true, es := demoEdges })]).det.fe = [0, 1] := by
+   { a := 1, b := 2, t1 := some 0, t2 := some 1, border := false, hard := false, d := d, q := 1 }]
+/-- without the `.clear()` of the attribute an interior edge flagged by an earlier run survives an `only_border` run -/
+example : (runHistory { selfClear := true, edgeClear := false, normalsPersistent := false } Mouette.Generated.C15.thresholds 3
+    RunState.fresh [(false, { onlyBorder := false, inj := false, es := demoEdges 0 }),
+                    (true, { onlyBorder := true, inj := false, es := demoEdges 0 })]).det.fe = [0, 1] := by
   decide +kernel
-example : (runHistory { selfClear := true, edgeClear := true } Mouette.Generated.C15.thresholds 3 RunState.fresh
-    [(false, { onlyBorder := false, es := demoEdges }), (true, { onlyBorder := true, es := demoEdges })]).det.fe = [0] := by
+example : (runHistory { selfClear := true, edgeClear := true, normalsPersistent := false } Mouette.Generated.C15.thresholds 3
+    RunState.fresh [(false, { onlyBorder := false, inj := false, es := demoEdges 0 }),
+                    (true, { onlyBorder := true, inj := false, es := demoEdges 0 })]).det.fe = [0] := by
+  decide +kernel
+/-- with persistent normals a fold (cos 0) detected by a first run is still reported after the strip was flattened
+(cos 1); with the private temporary it is not -/
+example : (runHistory { selfClear := true, edgeClear := true, normalsPersistent := true } Mouette.Generated.C15.thresholds 3
+    RunState.fresh [(false, { onlyBorder := false, inj := false, es := demoEdges 0 }),
+                    (true, { onlyBorder := false, inj := false, es := demoEdges 1 })]).det.fe = [0, 1] := by
+  decide +kernel
+example : (runHistory Mouette.Generated.C15.runFlags Mouette.Generated.C15.thresholds 3
+    RunState.fresh [(false, { onlyBorder := false, inj := false, es := demoEdges 0 }),
+                    (true, { onlyBorder := false, inj := false, es := demoEdges 1 })]).det.fe = [0] := by
   decide +kernel
 
 end Mouette.Props.C15
